@@ -367,6 +367,31 @@ theorem sha256_constants :
       [0x6a09e667, 0xbb67ae85, 0x3c6ef372, 0xa54ff53a, 0x510e527f, 0x9b05688c, 0x1f83d9ab, 0x5be0cd19] := by
   decide +kernel
 
+
+/-! ## integer representation: gojqx.ToGoJQValue's demotion rule (what Normalize applies before
+    to_yaml / to_toml / to_xml / to_csv, and decoders to their fields).  An integer is handed to jq
+    as an `int` exactly when it fits one, as a big integer otherwise — whatever Go type carried
+    it.  (A big integer that fits an int would be written by yaml.v3 / BurntSushi/toml as a quoted
+    string: seeded change S2-C14-2, `toGoJQIntBitLen`, does that to −2^63.) -/
+
+theorem normalize_int_canonical (g : GoInt) (h : g.valid = true) :
+    (minInt ≤ g.val ∧ g.val ≤ maxInt → toGoJQInt g = .int g.val) ∧
+    (¬ (minInt ≤ g.val ∧ g.val ≤ maxInt) → toGoJQInt g = .big g.val) := toGoJQInt_canonical g h
+
+/-- independent of the input representation -/
+theorem normalize_int_repr_independent (a b : GoInt) (ha : a.valid = true) (hb : b.valid = true)
+    (h : a.val = b.val) : toGoJQInt a = toGoJQInt b := by
+  by_cases hf : minInt ≤ a.val ∧ a.val ≤ maxInt
+  · rw [(toGoJQInt_canonical a ha).1 hf, (toGoJQInt_canonical b hb).1 (h ▸ hf), h]
+  · rw [(toGoJQInt_canonical a ha).2 hf, (toGoJQInt_canonical b hb).2 (h ▸ hf), h]
+
+example : (GoInt.big (-(2 ^ 63))).valid = true ∧ (GoInt.uint64 (2 ^ 64 - 1)).valid = true := by decide
+example : toGoJQInt (.big (-(2 ^ 63))) = .int (-(2 ^ 63)) ∧ toGoJQInt (.big (2 ^ 63)) = .big (2 ^ 63) ∧
+    toGoJQInt (.uint64 (2 ^ 63)) = .big (2 ^ 63) ∧ toGoJQInt (.int64 (-(2 ^ 63))) = .int (-(2 ^ 63)) := by decide
+/-- the BitLen rule is not canonical: it leaves −2^63 a big integer -/
+example : toGoJQIntBitLen (.big (-(2 ^ 63))) = .big (-(2 ^ 63)) ∧
+    toGoJQIntBitLen (.big (-(2 ^ 63) + 1)) = .int (-(2 ^ 63) + 1) := by decide
+
 /-! ## radix -/
 
 /-- `to_radix(b) | from_radix(b)` is the identity on every non-negative integer, 2 ≤ b ≤ 64 -/
